@@ -169,6 +169,37 @@ def coop_locks(obj):
     return n
 
 
+_COOP = {"on": True}
+
+
+class _ThreadingShim:
+    """Stands in for the `threading` module inside fakesnow's modules: locks created by the library at any time
+    (also lazily, e.g. one lock per database kept in a dict) are cooperative while schedules are explored."""
+
+    def __init__(self, real):
+        self._real = real
+
+    def Lock(self):  # noqa: N802
+        return CoopLock(lambda: _CURRENT["sched"]) if _COOP["on"] else self._real.Lock()
+
+    def RLock(self):  # noqa: N802
+        return CoopLock(lambda: _CURRENT["sched"]) if _COOP["on"] else self._real.RLock()
+
+    def __getattr__(self, k):
+        return getattr(self._real, k)
+
+
+def install_threading_shim(on=True):
+    import sys
+
+    _COOP["on"] = on
+    for name, mod in list(sys.modules.items()):
+        if name == "fakesnow" or name.startswith("fakesnow."):
+            t = getattr(mod, "threading", None)
+            if t is threading:
+                mod.threading = _ThreadingShim(threading)
+
+
 def _before(kind, sql):
     tid = getattr(_TL, "tid", None)
     s = _CURRENT["sched"]
